@@ -424,7 +424,7 @@ func (d *V1) Apply(op model.Op) (res model.Result) {
 		return r
 	case "Get":
 		out, err := c.GetItem(&dynamodb.GetItemInput{TableName: aws.String(op.Table), Key: ToV1Item(op.Key),
-			ProjectionExpression: strPtrOrNil(op.Projection), ExpressionAttributeNames: v1Names(op.Names)})
+			ProjectionExpression: strPtrOrNil(op.Projection), ExpressionAttributeNames: v1Names(op.Names), ConsistentRead: boolPtrOrNil(op.Consistent)})
 		if err != nil {
 			return fail(err)
 		}
@@ -433,7 +433,7 @@ func (d *V1) Apply(op model.Op) (res model.Result) {
 		in := &dynamodb.QueryInput{TableName: aws.String(op.Table), IndexName: strPtrOrNil(op.Index),
 			KeyConditionExpression: aws.String(op.KeyCond), FilterExpression: strPtrOrNil(op.Filter),
 			ExpressionAttributeNames: v1Names(op.Names), ExpressionAttributeValues: ToV1Item(op.Values),
-			ExclusiveStartKey: ToV1Item(op.StartKey)}
+			ExclusiveStartKey: ToV1Item(op.StartKey), ConsistentRead: boolPtrOrNil(op.Consistent)}
 		if op.Limit > 0 {
 			in.Limit = aws.Int64(int64(op.Limit))
 		}
@@ -448,7 +448,7 @@ func (d *V1) Apply(op model.Op) (res model.Result) {
 	case "Scan":
 		in := &dynamodb.ScanInput{TableName: aws.String(op.Table), IndexName: strPtrOrNil(op.Index),
 			FilterExpression: strPtrOrNil(op.Filter), ExpressionAttributeNames: v1Names(op.Names), ExpressionAttributeValues: ToV1Item(op.Values),
-			ExclusiveStartKey: ToV1Item(op.StartKey)}
+			ExclusiveStartKey: ToV1Item(op.StartKey), ConsistentRead: boolPtrOrNil(op.Consistent)}
 		if op.Limit > 0 {
 			in.Limit = aws.Int64(int64(op.Limit))
 		}
@@ -472,6 +472,10 @@ func (d *V1) Apply(op model.Op) (res model.Result) {
 			}
 		}
 		out, err := c.BatchWriteItem(in)
+		if op.Repeat {
+			// the same request object again (puts and deletes are idempotent)
+			out, err = c.BatchWriteItem(in)
+		}
 		if err != nil {
 			return fail(err)
 		}
